@@ -600,13 +600,14 @@ Qed.
 (* independence of the way a key is supplied (cert block v1 / v2.1 RoT types)               *)
 (* ====================================================================================== *)
 Definition supply_ok (p : key * supply) : Prop :=
-  match snd p with SPlain => True | SCaBytes => True | SRaw => raw_ok (fst p) | SCaObj => False end.
+  match snd p with SPlain => True | SCaBytes => True | SRaw => raw_ok (fst p) | SCaObj => True end.
 
 Lemma convert_key_ok p : supply_ok p -> exists ca, convert_key p = Ok (fst p, ca).
 Proof.
   destruct p as [k s]. unfold supply_ok, convert_key. cbn [fst snd]. destruct s; intros H; try contradiction.
   - now exists false.
   - exists false. pose proof (raw_key_roundtrip_lemma k H) as E. destruct (raw_key k) as [d|]; [|discriminate]. cbn [bind] in *. now rewrite E.
+  - now exists true.
   - now exists true.
 Qed.
 Lemma convert_all_ok inp : Forall supply_ok inp -> exists r, convert_all inp = Ok r /\ map fst r = map fst inp.
@@ -623,7 +624,7 @@ Proof.
   intros H H' E. destruct (convert_all_ok inp H) as (r & Er & Em). destruct (convert_all_ok inp' H') as (r' & Er' & Em').
   unfold rot_v1, rot_v1_export, rot_v21, rot_v21_export. rewrite Er, Er'. cbn [bind]. rewrite Em, Em', E. repeat split; reflexivity.
 Qed.
-Example supply_ok_nontrivial : Forall supply_ok [(KRsa (2 ^ 2047 + 1) 65537, SRaw); (KRsa 7 3, SCaBytes); (KRsa 7 3, SPlain)].
+Example supply_ok_nontrivial : Forall supply_ok [(KRsa (2 ^ 2047 + 1) 65537, SRaw); (KRsa 7 3, SCaBytes); (KRsa 7 3, SPlain); (KRsa 7 3, SCaObj)].
 Proof. repeat constructor; apply raw_ok_nontrivial. Qed.
 
 (* ====================================================================================== *)
@@ -816,3 +817,10 @@ Proof.
     + rewrite ES, <- Hex. unfold msg. rewrite <- !app_assoc. reflexivity.
   - cbn [bind]. destruct (rkr_calc _ _ _); [|discriminate]. cbn [bind]. intros H. injection H as _ <-. reflexivity.
 Qed.
+
+(* since the repair of C03-F5 the v2 table accepts RSA keys: the model computes a hash for four RSA-2048 keys *)
+Lemma ahab2_rsa_accepted_lemma :
+  exists h t, rot_ahab ahab2 (map (fun k => (k, SPlain)) (repeat (KRsa (2 ^ 2047 + 1) 65537) 4)) = Ok h /\
+              rot_ahab_export ahab2 (map (fun k => (k, SPlain)) (repeat (KRsa (2 ^ 2047 + 1) 65537) 4)) = Ok t /\
+              length h = 64%nat /\ length t = (4 + 4 * (12 + 64))%nat.
+Proof. eexists. eexists. split; [vm_compute; reflexivity|]. split; [vm_compute; reflexivity|]. split; reflexivity. Qed.
